@@ -126,3 +126,176 @@ Proof.
   subst pre. cbn [app] in E. unfold subject in E.
   apply app_inv_head in E. apply app_inv_head in E. exact E.
 Qed.
+
+(* ================================================================
+   Every pattern: not ending in a wildcard (a "*" elsewhere is a literal
+   character for the formatter), and ending in one
+   ================================================================ *)
+
+
+(* ---- every pattern that does not END in a wildcard (a "*" elsewhere is a
+        literal character for the formatter) ---- *)
+Lemma lang_url_nowild : forall ps first w,
+  ends_wild ps = false -> (lang (url_re first ps) w <-> inst first ps w).
+Proof.
+  induction ps as [|[k s] rest IH]; intros first w HW.
+  - cbn. apply lang_emp.
+  - assert (Hc : str_eqb s star && is_nil rest = false).
+    { cbn [ends_wild] in HW. destruct rest; cbn in *; [rewrite andb_true_r; exact HW | apply andb_false_r]. }
+    assert (Hr : ends_wild rest = false).
+    { cbn [ends_wild] in HW. destruct rest; [reflexivity | exact HW]. }
+    cbn [url_re inst]. rewrite Hc. unfold part_re.
+    destruct (is_brace s) eqn:Eb; split.
+    + intro H. apply lang_seq_inv in H. destruct H as (d & r & -> & Hd & Hr').
+      apply lang_seq_inv in Hr'. destruct Hr' as (v & w' & -> & Hv & Hw').
+      apply lang_delim in Hd. subst d. apply lang_param in Hv. destruct Hv as [Hn Hs].
+      exists v, w'. repeat split; try assumption. apply IH; assumption.
+    + intros (v & w' & -> & Hn & Hs & Hi).
+      constructor; [apply lang_delim; reflexivity|].
+      constructor; [apply lang_param; split; assumption | apply IH; assumption].
+    + intro H. apply lang_seq_inv in H. destruct H as (d & r & -> & Hd & Hr').
+      apply lang_seq_inv in Hr'. destruct Hr' as (v & w' & -> & Hv & Hw').
+      apply lang_delim in Hd. subst d. apply lang_lit in Hv. subst v.
+      exists w'. split; [reflexivity | apply IH; assumption].
+    + intros (w' & -> & Hi).
+      constructor; [apply lang_delim; reflexivity|].
+      constructor; [apply lang_lit; reflexivity | apply IH; assumption].
+Qed.
+
+(* kind of the trailing wildcard *)
+Definition wild_kind (ps : list part) : bool := fst (last ps (false, [])).
+
+(* ---- a pattern that ends in a wildcard: an instance of the parts before
+        the wildcard, then the optional group ---- *)
+Lemma lang_url_wild : forall ps first w,
+  ends_wild ps = true ->
+  (lang (url_re first ps) w <->
+   exists u g, w = u ++ g /\ inst first (removelast ps) u /\ lang (wild_re (wild_kind ps)) g).
+Proof.
+  induction ps as [|[k s] rest IH]; intros first w HW.
+  - cbn in HW. discriminate.
+  - destruct rest as [|r rest'].
+    + cbn in HW. cbn [url_re removelast inst wild_kind last fst is_nil]. rewrite HW. cbn [andb]. split.
+      * intro H. exists [], w. auto.
+      * intros (u & g & -> & -> & Hg). exact Hg.
+    + cbn [ends_wild is_nil] in HW.
+      change (removelast ((k, s) :: r :: rest')) with ((k, s) :: removelast (r :: rest')).
+      change (wild_kind ((k, s) :: r :: rest')) with (wild_kind (r :: rest')).
+      cbn [url_re is_nil inst]. rewrite andb_false_r. unfold part_re.
+      destruct (is_brace s) eqn:Eb; split.
+      * intro H. apply lang_seq_inv in H. destruct H as (d & q & -> & Hd & Hq).
+        apply lang_seq_inv in Hq. destruct Hq as (v & w' & -> & Hv & Hw').
+        apply lang_delim in Hd. subst d. apply lang_param in Hv. destruct Hv as [Hn Hs].
+        apply (IH false w' HW) in Hw'. destruct Hw' as (u & g & -> & Hu & Hg).
+        exists (delim_txt first k ++ v ++ u), g. split; [rewrite <- !app_assoc; reflexivity|].
+        split; [|exact Hg]. exists v, u. auto.
+      * intros (u & g & -> & (v & u' & -> & Hn & Hs & Hi) & Hg).
+        rewrite <- !app_assoc.
+        constructor; [apply lang_delim; reflexivity|].
+        constructor; [apply lang_param; split; assumption|].
+        apply (IH false _ HW). exists u', g. auto.
+      * intro H. apply lang_seq_inv in H. destruct H as (d & q & -> & Hd & Hq).
+        apply lang_seq_inv in Hq. destruct Hq as (v & w' & -> & Hv & Hw').
+        apply lang_delim in Hd. subst d. apply lang_lit in Hv. subst v.
+        apply (IH false w' HW) in Hw'. destruct Hw' as (u & g & -> & Hu & Hg).
+        exists (delim_txt first k ++ s ++ u), g. split; [rewrite <- !app_assoc; reflexivity|].
+        split; [|exact Hg]. exists u. auto.
+      * intros (u & g & -> & (u' & -> & Hi) & Hg).
+        rewrite <- !app_assoc.
+        constructor; [apply lang_delim; reflexivity|].
+        constructor; [apply lang_lit; reflexivity|].
+        apply (IH false _ HW). exists u', g. auto.
+Qed.
+
+(* what an expression WITHOUT end anchor finds: the method, ":::", an instance
+   of the parts before the wildcard — anywhere in the subject, whatever follows
+   (the optional group may be empty and the search does not reach the end) *)
+Lemma search_open : forall mre p w,
+  ends_wild (split_url p) = true ->
+  (re_search (format_with mre p) w = true <->
+   exists pre a u rest, w = pre ++ a ++ sep3 ++ u ++ rest /\ lang mre a /\
+                        inst true (removelast (split_url p)) u).
+Proof.
+  intros mre p w HW. rewrite re_search_spec. unfold searches. cbn [format_with e_re e_eos].
+  rewrite HW. cbn [negb]. split.
+  - intros (pre & mid & post & -> & HL & _).
+    apply lang_seq_inv in HL. destruct HL as (a & r & -> & Ha & Hr).
+    apply lang_seq_inv in Hr. destruct Hr as (s3 & x & -> & Hs & Hx).
+    apply lang_lit in Hs. subst s3. apply (lang_url_wild _ _ _ HW) in Hx.
+    destruct Hx as (u & g & -> & Hu & _).
+    exists pre, a, u, (g ++ post). rewrite <- !app_assoc. auto.
+  - intros (pre & a & u & rest & -> & Ha & Hu).
+    exists pre, (a ++ sep3 ++ u), rest. rewrite <- !app_assoc. split; [reflexivity|].
+    split; [|discriminate].
+    constructor; [exact Ha|]. constructor; [apply lang_lit; reflexivity|].
+    apply (lang_url_wild _ _ _ HW). exists u, []. rewrite app_nil_r.
+    split; [reflexivity|]. split; [exact Hu | apply LOpt0].
+Qed.
+
+(* the anchored case for every pattern not ending in a wildcard *)
+Lemma search_anchored_nowild : forall mre p w,
+  ends_wild (split_url p) = false ->
+  (re_search (format_with mre p) w = true <->
+   exists pre a u, w = pre ++ a ++ sep3 ++ u /\ lang mre a /\ inst true (split_url p) u).
+Proof.
+  intros mre p w HW. rewrite re_search_spec. unfold searches. cbn [format_with e_re e_eos].
+  rewrite HW. cbn [negb]. split.
+  - intros (pre & mid & post & -> & HL & Hp). rewrite (Hp eq_refl), app_nil_r.
+    apply lang_seq_inv in HL. destruct HL as (a & r & -> & Ha & Hr).
+    apply lang_seq_inv in Hr. destruct Hr as (s3 & u & -> & Hs & Hu).
+    apply lang_lit in Hs. subst s3. apply lang_url_nowild in Hu; [|exact HW].
+    exists pre, a, u. auto.
+  - intros (pre & a & u & -> & Ha & Hu). exists pre, (a ++ sep3 ++ u), [].
+    rewrite app_nil_r. split; [reflexivity|]. split; [|reflexivity].
+    constructor; [exact Ha|]. constructor; [apply lang_lit; reflexivity|].
+    apply lang_url_nowild; assumption.
+Qed.
+
+Lemma exact_format_nowild : forall m p w,
+  ends_wild (split_url p) = false ->
+  (re_search (format m p) w = true <->
+   exists pre u, w = pre ++ subject m u /\ inst true (split_url p) u).
+Proof.
+  intros m p w HW. unfold format. rewrite (search_anchored_nowild _ _ _ HW). unfold subject. split.
+  - intros (pre & a & u & -> & Ha & Hu). apply lang_lit in Ha. subst a. exists pre, u. auto.
+  - intros (pre & u & -> & Hu). exists pre, m, u. split; [reflexivity|]. split; [apply lang_lit; reflexivity | exact Hu].
+Qed.
+
+Lemma exact_format_wild : forall m p w,
+  ends_wild (split_url p) = true ->
+  (re_search (format m p) w = true <->
+   exists pre u rest, w = pre ++ subject m u ++ rest /\ inst true (removelast (split_url p)) u).
+Proof.
+  intros m p w HW. unfold format. rewrite (search_open _ _ _ HW). unfold subject. split.
+  - intros (pre & a & u & rest & -> & Ha & Hu). apply lang_lit in Ha. subst a.
+    exists pre, u, rest. rewrite <- !app_assoc. auto.
+  - intros (pre & u & rest & -> & Hu). exists pre, m, u, rest. rewrite <- !app_assoc.
+    split; [reflexivity|]. split; [apply lang_lit; reflexivity | exact Hu].
+Qed.
+
+Lemma exact_format_any_wild : forall p w,
+  ends_wild (split_url p) = true ->
+  (re_search (format_any p) w = true <->
+   exists pre u rest, w = pre ++ sep3 ++ u ++ rest /\ inst true (removelast (split_url p)) u).
+Proof.
+  intros p w HW. unfold format_any. rewrite (search_open _ _ _ HW). split.
+  - intros (pre & a & u & rest & -> & _ & Hu). exists (pre ++ a), u, rest.
+    rewrite <- !app_assoc. auto.
+  - intros (pre & u & rest & -> & Hu). exists pre, [], u, rest.
+    split; [reflexivity|]. split; [apply LStar0 | exact Hu].
+Qed.
+
+(* literal parts before the wildcard: the subject contains "METHOD:::" followed by
+   exactly their text *)
+Lemma literal_format_wild : forall m p w,
+  ends_wild (split_url p) = true ->
+  literal_pattern (removelast (split_url p)) = true ->
+  (re_search (format m p) w = true <->
+   exists pre rest, w = pre ++ subject m (unsplit true (removelast (split_url p))) ++ rest).
+Proof.
+  intros m p w HW HL. rewrite (exact_format_wild _ _ _ HW). split.
+  - intros (pre & u & rest & -> & Hu). apply (inst_literal _ _ _ HL) in Hu. subst u.
+    exists pre, rest. reflexivity.
+  - intros (pre & rest & ->). exists pre, (unsplit true (removelast (split_url p))), rest.
+    split; [reflexivity|]. apply (inst_literal _ _ _ HL). reflexivity.
+Qed.
